@@ -258,12 +258,15 @@ def m_encode2(I, st, recv, args, kwargs, fr, k):
     B.note(I, "str.encode: identity on ASCII content; non-ASCII content yields opaque bytes (length >= len) or UnicodeEncodeError")
     def ok(s2):
         return k(s2, Sym(mk_byt(s)))
+    # the encoding of a given string is a function of the string (deterministic): uninterpreted, one per codec/error mode
+    r = z3.Function("enc_" + "".join(ch if ch.isalnum() else "_" for ch in f"{enc}_{errors}".lower()), z3.StringSort(), z3.StringSort())(s)
+    if fr.spec:
+        return k(st, Sym(mk_byt(z3.If(ascii_only, s, r))))       # specs: total (the value when the encoding succeeds)
     def non_ascii(s2):
         outs = []
         if not (enc.lower().replace("-", "") == "utf8" and errors == "surrogatepass"):
             s3 = s2.fork()
             outs += I.raise_(s3, "builtins.UnicodeEncodeError", "encode")
-        r = z3.String(I.w.fresh("encoded"))
         s2.fact(z3.Length(r) >= z3.Length(s))
         return outs + k(s2, Sym(mk_byt(r)))
     return I.branch(st, ascii_only, ok, non_ascii)
